@@ -926,6 +926,80 @@ func runC12(c *Ctx) {
 	})
 
 	// C. SvResync: kind byte + info of that kind, absorbed by receiveSingle when the Job is known.
+	// B4. what the server keeps when a Job's answer carries device information (handleInfoResult): the
+	// settings in every kind of answer, the proxy list only in the answers that carry one (MvProxy,
+	// MvRefresh). The answer to a Migrate / MvTime / MvProfile Job carries no proxy list: the list the
+	// server learned before stays - the migrated client re-creates its proxies from the hand-off.
+	c.Cases("jobresult", c.N(900, 6000), func(r *Rng, i int) {
+		a := c12Gen(r, false)
+		a.client, a.closing = true, false
+		if a.mid[0] == 0 {
+			a.mid[0] = 1
+		}
+		if a.proxy == nil || i%3 == 0 {
+			a.proxy = &c12Proxy{active: true, name: "px" + strconv.Itoa(r.Intn(100)), addr: "127.0.0.1:" + strconv.Itoa(1+r.Intn(65000)), profile: r.Bytes(1 + r.Intn(40))}
+		}
+		a.proxy.marshal, a.proxy.active = true, true
+		b := c12Gen(r, false)
+		b.client, b.closing = false, false
+		srv := b.build()
+		dev := c12ID(r)
+		answer := func(jt uint8, kind uint8, d *c12Sess, job uint16) bool {
+			srv.VerifC12AddJob(job, jt)
+			w := &com.Packet{ID: c2.RvResult, Job: job}
+			copy(w.Device[:], dev)
+			if err := d.build().VerifC12Write(kind, w); err != nil {
+				return false
+			}
+			return srv.VerifC12Result(w)
+		}
+		if !answer(task.MvRefresh, c2.VerifC12InfoRefresh, a, uint16(2+r.Intn(30000))) {
+			return
+		}
+		before := srv.VerifC12Proxies()
+		// the second answer: other settings, and for the kinds that carry one another proxy list
+		a2 := *a
+		a2.jitter, a2.sleep = uint8(r.Intn(101)), int64(1+r.Intn(1000))*int64(time.Second)
+		jt := []uint8{task.MvMigrate, task.MvTime, task.MvProfile, task.MvProxy, task.MvRefresh}[i%5]
+		kind := map[uint8]uint8{task.MvMigrate: c2.VerifC12InfoSyncMigrate, task.MvTime: c2.VerifC12InfoSync, task.MvProfile: c2.VerifC12InfoSync,
+			task.MvProxy: c2.VerifC12InfoProxy, task.MvRefresh: c2.VerifC12InfoRefresh}[jt]
+		carries := jt == task.MvProxy || jt == task.MvRefresh
+		if carries {
+			px := *a.proxy
+			px.name, px.addr = px.name+"-2", "10.1.2.3:"+strconv.Itoa(1+r.Intn(65000))
+			a2.proxy = &px
+		}
+		if !answer(jt, kind, &a2, uint16(30002+r.Intn(30000))) {
+			c.Fail("jobresult", fmt.Sprintf("jobresult:not-accepted:%#x", jt), "the server did not accept the Job's answer", a2.tokens())
+			return
+		}
+		after := srv.VerifC12Proxies()
+		in := map[string]interface{}{"job_type": jt, "client": a2.tokens(), "proxies_before": fmt.Sprint(before), "proxies_after": fmt.Sprint(after)}
+		want := before
+		if carries {
+			want = []c2.VerifC12ProxyData{{Name: a2.proxy.name, Addr: a2.proxy.addr, Profile: a2.proxy.profile}}
+			if jt == task.MvProxy {
+				want[0].Profile = nil // the answer to a proxy order names the proxies, it does not repeat their profiles
+				for k := range after {
+					if len(after[k].Profile) == 0 {
+						after[k].Profile = nil
+					}
+				}
+			}
+		}
+		if fmt.Sprint(after) != fmt.Sprint(want) {
+			c.Fail("jobresult", fmt.Sprintf("server-view:proxies-after-job:%#x", jt), fmt.Sprintf("the server lists proxies %v after the answer, expected %v", after, want), in)
+		}
+		if jt != task.MvProxy {
+			got := c12Dump(srv, b)
+			if got.jitter != a2.jitter || got.sleep != a2.sleep {
+				c.Fail("jobresult", fmt.Sprintf("server-view:settings-after-job:%#x", jt), fmt.Sprintf("the server holds sleep %d jitter %d, the client answered %d / %d", got.sleep, got.jitter, a2.sleep, a2.jitter), in)
+			}
+		}
+		c.Count(fmt.Sprintf("jobresult:%#x", jt))
+		c.Eval(true, fmt.Sprint("jobresult", i, a2.tokens()))
+	})
+
 	c.Cases("resync", c.N(600, 4000), func(r *Rng, i int) {
 		t := []uint8{c2.VerifC12InfoRefresh, c2.VerifC12InfoSync}[i%2]
 		a := c12Gen(r, false)
